@@ -12,13 +12,13 @@
    Option specs: a sequence of [short |-> char or NoShort, long |-> text or <<>>, arity |-> no|req|opt].
 
    The scanner is a state machine over the argument list.  State
-       [opts, rest, pend, stop, unspec, unk4]
+       [opts, rest, pend, stop, unspec, fdd, funk, fabbr]
    opts  = options recognised so far, each [spec |-> index into specs, 0 = unknown,
            long |-> written in long form, name |-> the name as written, arg |-> its argument]
    rest  = non-option arguments so far
    pend  = <<>> or <<o>>: an option with a required argument still waiting for the next element
    stop  = option scanning has ended
-   unspec, unk4 = an Unspecified case (1)/(2), resp. (4), was met (sticky)
+   unspec, fdd, funk, fabbr = sticky flags: an Unspecified case (1) / (3) / (4) / (2) was met
    One action per argument; which one is decided by Guard:
      TakeArg     pend # <<>>: the element, whatever it is, is the argument of the pending option
      NonOptAfter stop: the element is a non-option argument
@@ -26,7 +26,7 @@
      DDNoBit     "--" without cfg.dd: see Unspecified (3)
      Long        "--x..."; or "-x..." (x # "-") under cfg.lo: one long option, "name" or "name=value"
      Short       "-x..." otherwise: a chain of short options; the first one that takes an argument
-                 (or is unknown) takes the remainder of the element as its argument
+                 takes the remainder of the element as its argument
      Word        anything else ("" and "-" included): a non-option argument; ends scanning iff cfg.bsd
    Arguments: "req" takes the attached text ("-oARG", "--long=ARG", also when ARG is empty for the
    long form) or else the next element; "opt" only attached text; "no" none.  An unknown option is
@@ -35,17 +35,20 @@
    Parse(args)    = the final state; error iff an option is pending or an unknown option was seen.
    Complete(args) = the state after all but the last element, and the context of the last.
 
-   Unspecified (the property statement and the documents leave these open; the executor does not
-   compare the prescribed result for them, only SaneResult is required):
-    (1) "--name=value" for an option that takes no argument (GNU: error; the package: keeps it).
-    (2) a long name that is a proper prefix of a specified long name (GNU/BSD accept unique
-        abbreviations; the package documentation does not mention them).
-    (3) "--" when cfg.dd is off: both "plain non-option word" (variant "word", what the code does)
-        and "unknown long option with the empty name" (variant "long") are accepted.
-    (4) for Parse only: what follows an unknown short option inside the same element (GNU goes on
-        with the chain, the package takes it as the optional argument); Parse reports an error
-        either way.  Complete documents the choice, so it is prescribed there.
-    (5) the completion context of a last element "--" when cfg.dd is off.
+   Unspecified: the property statement and the documents leave these open.  (2), (3), (4) are
+   VARIANTS: the scanner takes a variant record v = [dd, unk, abbr] and a result is accepted when
+   it is the prescribed one under some variant.  V0 is what the package does.
+    (1) "--name=value" for an option that takes no argument (GNU: error; the package: keeps the
+        value).  Sets `unspec`: only SaneResult is required of the result.
+    (2) a long name that is a proper prefix of specified long names: v.abbr = "no": an unknown
+        option (the package); "yes": the abbreviated option if it is unique (GNU/BSD), and
+        `unspec` if it is ambiguous.
+    (3) "--" when cfg.dd is off: v.dd = "word": a plain non-option word (the package);
+        "long": an unknown long option with the empty name.
+    (4) for Parse only: what follows an unknown short option inside the same element:
+        v.unk = "arg": its optional argument (the package); "chain": further short options (GNU).
+        Parse reports an error either way.  Complete documents "arg", which is prescribed there.
+    (5) the completion context of a last element "--" when cfg.dd is off: `unspec`.
    Out of model: specs with repeated short or long names, long names containing "=", short
    options "-" or "=".                                                                         *)
 EXTENDS Integers, Sequences, FiniteSets
@@ -71,6 +74,9 @@ WellFormedSpecs(specs) ==
         /\ specs[k].short = NoShort \/ specs[k].short # specs[l].short
         /\ specs[k].long = <<>> \/ specs[k].long # specs[l].long
 
+V0 == [dd |-> "word", unk |-> "arg", abbr |-> "no"]
+AllVariants == [dd : {"word", "long"}, unk : {"arg", "chain"}, abbr : {"no", "yes"}]
+
 FindShort(specs, c) ==
   IF \E k \in 1..Len(specs) : specs[k].short = c
   THEN CHOOSE k \in 1..Len(specs) : specs[k].short = c /\ \A l \in 1..(k - 1) : specs[l].short # c
@@ -84,21 +90,27 @@ Opt(k, isLong, name, arg) == [spec |-> k, long |-> isLong, name |-> name, arg |-
 ArityOf(specs, o) == IF o.spec = 0 THEN "opt" ELSE specs[o.spec].arity
 
 (* ---- one long option: body is the text after the dashes.
-        Result [opts (one option), need (it waits for the next element), unspec] *)
-LongName(body) == LET e == IndexOf(body, Eq) IN IF e = 0 THEN body ELSE SubSeq(body, 1, e - 1)
+        Result [opts (one option), need (it waits for the next element), unspec, abbr] *)
+LongName(body)   == LET e == IndexOf(body, Eq) IN IF e = 0 THEN body ELSE SubSeq(body, 1, e - 1)
 LongHasVal(body) == IndexOf(body, Eq) # 0
-LongVal(body)  == LET e == IndexOf(body, Eq) IN IF e = 0 THEN <<>> ELSE Drop(body, e)
-IsAbbrev(specs, name) == \E k \in 1..Len(specs) :
-                            specs[k].long # <<>> /\ specs[k].long # name /\ HasPrefix(specs[k].long, name)
-LongTok(body, specs) ==
-  LET name == LongName(body)
-      k    == FindLong(specs, name)
+LongVal(body)    == LET e == IndexOf(body, Eq) IN IF e = 0 THEN <<>> ELSE Drop(body, e)
+Abbreviated(specs, name) == {k \in 1..Len(specs) :
+                               specs[k].long # <<>> /\ specs[k].long # name /\ HasPrefix(specs[k].long, name)}
+LongTok(body, specs, v) ==
+  LET name  == LongName(body)
+      exact == FindLong(specs, name)
+      ab    == Abbreviated(specs, name)
+      k     == IF exact # 0 THEN exact
+               ELSE IF v.abbr = "yes" /\ Cardinality(ab) = 1 THEN CHOOSE j \in ab : TRUE
+               ELSE 0
+      isAb  == exact = 0 /\ ab # {}
   IN  IF k = 0
       THEN [opts |-> <<Opt(0, TRUE, name, LongVal(body))>>, need |-> FALSE,
-            unspec |-> IsAbbrev(specs, name)]                                  \* Unspecified (2)
-      ELSE [opts |-> <<Opt(k, TRUE, name, LongVal(body))>>,
+            unspec |-> isAb /\ v.abbr = "yes", abbr |-> isAb]                  \* ambiguous under (2)
+      ELSE [opts |-> <<Opt(k, TRUE, specs[k].long, LongVal(body))>>,       \* reported under its full name
             need |-> specs[k].arity = "req" /\ ~LongHasVal(body),
-            unspec |-> specs[k].arity = "no" /\ LongHasVal(body)]              \* Unspecified (1)
+            unspec |-> specs[k].arity = "no" /\ LongHasVal(body),               \* Unspecified (1)
+            abbr |-> isAb]
 
 \* The package reports the name of a short option as a rune: a byte that is not valid UTF-8 can
 \* only be reported as U+FFFD.
@@ -106,25 +118,29 @@ MaxRune == 1114111
 ShortName(c) == IF c > MaxRune THEN 65533 ELSE c
 
 (* ---- a chain of short options: body is the text after the dash (non-empty), from position j.
-        When need holds the last option of opts is the pending one. unkrest: Unspecified (4) *)
-RECURSIVE ShortFrom(_, _, _)
-ShortFrom(body, j, specs) ==
+        When need holds the last option of opts is the pending one. unkrest: Unspecified (4) met *)
+RECURSIVE ShortFrom(_, _, _, _)
+ShortFrom(body, j, specs, v) ==
   LET c    == body[j]
       k    == FindShort(specs, c)
       tail == Drop(body, j)
   IN  IF k # 0 /\ specs[k].arity = "no"
       THEN IF j = Len(body)
            THEN [opts |-> <<Opt(k, FALSE, <<c>>, <<>>)>>, need |-> FALSE, unkrest |-> FALSE]
-           ELSE LET r == ShortFrom(body, j + 1, specs)
+           ELSE LET r == ShortFrom(body, j + 1, specs, v)
                 IN  [opts |-> <<Opt(k, FALSE, <<c>>, <<>>)>> \o r.opts, need |-> r.need, unkrest |-> r.unkrest]
       ELSE IF k # 0
       THEN [opts |-> <<Opt(k, FALSE, <<c>>, tail)>>,
             need |-> specs[k].arity = "req" /\ tail = <<>>, unkrest |-> FALSE]
+      ELSE IF v.unk = "chain" /\ tail # <<>>
+      THEN LET r == ShortFrom(body, j + 1, specs, v)
+           IN  [opts |-> <<Opt(0, FALSE, <<ShortName(c)>>, <<>>)>> \o r.opts, need |-> r.need, unkrest |-> TRUE]
       ELSE [opts |-> <<Opt(0, FALSE, <<ShortName(c)>>, tail)>>, need |-> FALSE, unkrest |-> tail # <<>>]
-ShortTok(body, specs) == ShortFrom(body, 1, specs)
+ShortTok(body, specs, v) == ShortFrom(body, 1, specs, v)
 
 (* ---- the scanner ---- *)
-Init0 == [opts |-> <<>>, rest |-> <<>>, pend |-> <<>>, stop |-> FALSE, unspec |-> FALSE, unk4 |-> FALSE]
+Init0 == [opts |-> <<>>, rest |-> <<>>, pend |-> <<>>, stop |-> FALSE,
+          unspec |-> FALSE, fdd |-> FALSE, funk |-> FALSE, fabbr |-> FALSE]
 
 Actions == {"TakeArg", "NonOptAfter", "Terminator", "DDNoBit", "Long", "Short", "Word"}
 
@@ -143,42 +159,55 @@ Guard(a, st, arg, cfg) ==
 
 ActionOf(st, arg, cfg) == CHOOSE a \in Actions : Guard(a, st, arg, cfg)
 
-WithTok(st, r, u, u4) ==
+WithTok(st, r) ==
   IF r.need
-  THEN [st EXCEPT !.opts = st.opts \o Front(r.opts), !.pend = <<r.opts[Len(r.opts)]>>,
-                  !.unspec = st.unspec \/ u, !.unk4 = st.unk4 \/ u4]
-  ELSE [st EXCEPT !.opts = st.opts \o r.opts, !.unspec = st.unspec \/ u, !.unk4 = st.unk4 \/ u4]
+  THEN [st EXCEPT !.opts = st.opts \o Front(r.opts), !.pend = <<r.opts[Len(r.opts)]>>]
+  ELSE [st EXCEPT !.opts = st.opts \o r.opts]
 
-\* ddv \in {"word", "long"}: the variant of Unspecified (3).
-Do(a, st, arg, specs, cfg, ddv) ==
+Do(a, st, arg, specs, cfg, v) ==
   CASE a = "TakeArg"     -> [st EXCEPT !.opts = Append(st.opts, [st.pend[1] EXCEPT !.arg = arg]), !.pend = <<>>]
     [] a = "NonOptAfter" -> [st EXCEPT !.rest = Append(st.rest, arg)]
     [] a = "Terminator"  -> [st EXCEPT !.stop = TRUE]
-    [] a = "DDNoBit"     -> IF ddv = "word"
-                            THEN [st EXCEPT !.rest = Append(st.rest, arg), !.stop = cfg.bsd]
-                            ELSE [st EXCEPT !.opts = Append(st.opts, Opt(0, TRUE, <<>>, <<>>))]
+    [] a = "DDNoBit"     -> IF v.dd = "word"
+                            THEN [st EXCEPT !.rest = Append(st.rest, arg), !.stop = cfg.bsd, !.fdd = TRUE]
+                            ELSE [st EXCEPT !.opts = Append(st.opts, Opt(0, TRUE, <<>>, <<>>)), !.fdd = TRUE]
     [] a = "Long"        -> LET body == IF HasPrefix(arg, DD) THEN Drop(arg, 2) ELSE Drop(arg, 1)
-                                r    == LongTok(body, specs)
-                            IN  WithTok(st, r, r.unspec, FALSE)
-    [] a = "Short"       -> LET r == ShortTok(Drop(arg, 1), specs)
-                            IN  WithTok(st, r, FALSE, r.unkrest)
+                                r    == LongTok(body, specs, v)
+                                s1   == WithTok(st, r)
+                            IN  [s1 EXCEPT !.unspec = st.unspec \/ r.unspec, !.fabbr = st.fabbr \/ r.abbr]
+    [] a = "Short"       -> LET r  == ShortTok(Drop(arg, 1), specs, v)
+                                s1 == WithTok(st, r)
+                            IN  [s1 EXCEPT !.funk = st.funk \/ r.unkrest]
     [] a = "Word"        -> [st EXCEPT !.rest = Append(st.rest, arg), !.stop = cfg.bsd]
 
-Step(st, arg, specs, cfg, ddv) == Do(ActionOf(st, arg, cfg), st, arg, specs, cfg, ddv)
+Step(st, arg, specs, cfg, v) == Do(ActionOf(st, arg, cfg), st, arg, specs, cfg, v)
 
 RECURSIVE ScanFrom(_, _, _, _, _, _)
-ScanFrom(st, args, i, specs, cfg, ddv) ==
+ScanFrom(st, args, i, specs, cfg, v) ==
   IF i > Len(args) THEN st
-  ELSE ScanFrom(Step(st, args[i], specs, cfg, ddv), args, i + 1, specs, cfg, ddv)
-Scan(args, specs, cfg, ddv) == ScanFrom(Init0, args, 1, specs, cfg, ddv)
+  ELSE ScanFrom(Step(st, args[i], specs, cfg, v), args, i + 1, specs, cfg, v)
+Scan(args, specs, cfg, v) == ScanFrom(Init0, args, 1, specs, cfg, v)
 
 HasUnknown(opts) == \E i \in 1..Len(opts) : opts[i].spec = 0
+
+\* The variants that can make a difference, given the flags of the scan under V0 (the first
+\* point where two variants part is a flagged element of the V0 scan).
+VariantsFor(st0, forParse) ==
+  [dd   : IF st0.fdd THEN {"word", "long"} ELSE {"word"},
+   unk  : IF st0.funk /\ forParse THEN {"arg", "chain"} ELSE {"arg"},
+   abbr : IF st0.fabbr THEN {"no", "yes"} ELSE {"no"}]
 
 (* ---- Parse: what getopt.Parse must return ---- *)
 ParseOf(st) == [opts |-> st.opts, rest |-> st.rest,
                 err |-> st.pend # <<>> \/ HasUnknown(st.opts),
-                unspec |-> st.unspec \/ st.unk4]
-Parse(args, specs, cfg, ddv) == ParseOf(Scan(args, specs, cfg, ddv))
+                unspec |-> st.unspec]
+Parse(args, specs, cfg, v) == ParseOf(Scan(args, specs, cfg, v))
+\* all accepted results; if one of them is unspec the case is Unspecified
+ParseResultsOf(st0, args, specs, cfg) ==
+  IF st0.fdd \/ st0.funk \/ st0.fabbr
+  THEN {Parse(args, specs, cfg, v) : v \in VariantsFor(st0, TRUE)}
+  ELSE {ParseOf(st0)}
+ParseResults(args, specs, cfg) == ParseResultsOf(Scan(args, specs, cfg, V0), args, specs, cfg)
 
 (* ---- Complete: state before the last element + context of the last element.
    ctx = [type, opt (<<>> or <<o>>), text]; extra = options contributed by the last element
@@ -186,34 +215,41 @@ Parse(args, specs, cfg, ddv) == ParseOf(Scan(args, specs, cfg, ddv))
    returned options, so both are accepted by the executor. ---- *)
 Ctx(type, opt, text) == [type |-> type, opt |-> opt, text |-> text]
 NoExtra == <<>>
+LC(ctx, extra, unspec, abbr) == [ctx |-> ctx, extra |-> extra, unspec |-> unspec, abbr |-> abbr]
 
-LastCtx(st, last, specs, cfg) ==
-  IF st.pend # <<>> THEN [ctx |-> Ctx("OptionArgument", <<[st.pend[1] EXCEPT !.arg = last]>>, <<>>), extra |-> NoExtra, unspec |-> FALSE]
-  ELSE IF st.stop THEN [ctx |-> Ctx("Argument", <<>>, last), extra |-> NoExtra, unspec |-> FALSE]
-  ELSE IF last = <<>> THEN [ctx |-> Ctx("OptionOrArgument", <<>>, <<>>), extra |-> NoExtra, unspec |-> FALSE]
-  ELSE IF last = <<Dash>> THEN [ctx |-> Ctx("AnyOption", <<>>, <<>>), extra |-> NoExtra, unspec |-> FALSE]
+LastCtx(st, last, specs, cfg, v) ==
+  IF st.pend # <<>> THEN LC(Ctx("OptionArgument", <<[st.pend[1] EXCEPT !.arg = last]>>, <<>>), NoExtra, FALSE, FALSE)
+  ELSE IF st.stop THEN LC(Ctx("Argument", <<>>, last), NoExtra, FALSE, FALSE)
+  ELSE IF last = <<>> THEN LC(Ctx("OptionOrArgument", <<>>, <<>>), NoExtra, FALSE, FALSE)
+  ELSE IF last = <<Dash>> THEN LC(Ctx("AnyOption", <<>>, <<>>), NoExtra, FALSE, FALSE)
   ELSE IF HasPrefix(last, DD) \/ (cfg.lo /\ last[1] = Dash)
   THEN LET body == IF HasPrefix(last, DD) THEN Drop(last, 2) ELSE Drop(last, 1)
        IN  IF ~LongHasVal(body)
-           THEN [ctx |-> Ctx("LongOption", <<>>, body), extra |-> NoExtra,
-                 unspec |-> last = DD /\ ~cfg.dd]                               \* Unspecified (5)
-           ELSE LET r == LongTok(body, specs)
-                IN  [ctx |-> Ctx("OptionArgument", r.opts, <<>>), extra |-> NoExtra, unspec |-> r.unspec]
+           THEN LC(Ctx("LongOption", <<>>, body), NoExtra, last = DD /\ ~cfg.dd, FALSE)   \* Unspecified (5)
+           ELSE LET r == LongTok(body, specs, v)
+                IN  LC(Ctx("OptionArgument", r.opts, <<>>), NoExtra, r.unspec, r.abbr)
   ELSE IF last[1] = Dash
-  THEN LET r == ShortTok(Drop(last, 1), specs)
+  THEN LET r == ShortTok(Drop(last, 1), specs, [v EXCEPT !.unk = "arg"])
            o == r.opts[Len(r.opts)]
        IN  IF ArityOf(specs, o) = "no"
-           THEN [ctx |-> Ctx("ChainShortOption", <<>>, <<>>), extra |-> r.opts, unspec |-> FALSE]
-           ELSE [ctx |-> Ctx("OptionArgument", <<o>>, <<>>), extra |-> Front(r.opts), unspec |-> FALSE]
-  ELSE [ctx |-> Ctx("Argument", <<>>, last), extra |-> NoExtra, unspec |-> FALSE]
+           THEN LC(Ctx("ChainShortOption", <<>>, <<>>), r.opts, FALSE, FALSE)
+           ELSE LC(Ctx("OptionArgument", <<o>>, <<>>), Front(r.opts), FALSE, FALSE)
+  ELSE LC(Ctx("Argument", <<>>, last), NoExtra, FALSE, FALSE)
 
 \* from the state reached on all but the last element
-CompleteOf(before, last, specs, cfg) ==
-  LET lc == LastCtx(before, last, specs, cfg)
+CompleteOf(before, last, specs, cfg, v) ==
+  LET lc == LastCtx(before, last, specs, cfg, v)
   IN  [opts |-> before.opts, extra |-> lc.extra, rest |-> before.rest, ctx |-> lc.ctx,
-       unspec |-> before.unspec \/ lc.unspec]
-Complete(args, specs, cfg, ddv) ==
-  CompleteOf(Scan(Front(args), specs, cfg, ddv), args[Len(args)], specs, cfg)
+       unspec |-> before.unspec \/ lc.unspec, fabbr |-> before.fabbr \/ lc.abbr]
+Complete(args, specs, cfg, v) ==
+  CompleteOf(Scan(Front(args), specs, cfg, v), args[Len(args)], specs, cfg, v)
+\* before0 = Scan(Front(args)) under V0
+CompleteResultsOf(before0, args, specs, cfg) ==
+  LET c0 == CompleteOf(before0, args[Len(args)], specs, cfg, V0)
+  IN  IF before0.fdd \/ c0.fabbr
+      THEN {Complete(args, specs, cfg, v) : v \in VariantsFor([before0 EXCEPT !.fabbr = c0.fabbr], FALSE)}
+      ELSE {c0}
+CompleteResults(args, specs, cfg) == CompleteResultsOf(Scan(Front(args), specs, cfg, V0), args, specs, cfg)
 
 (* ---- what edit:complete-getopt (always GNU configuration) lets a caller observe of a completion:
    the argument handler called (its position = number of non-option arguments before, and the
